@@ -8,7 +8,7 @@ from typing import Any, Sequence, Union
 
 from .._string_utils import wrapped_lines
 from .._utils import flatten
-from ..lang import print_ast
+from ..lang import ast as _ast, print_ast
 from ..schema import (
     SPECIFIED_DIRECTIVES,
     SPECIFIED_SCALAR_TYPES,
@@ -129,10 +129,20 @@ class ASTSchemaPrinter:
     def print_description(
         self, definition: Any, depth: int = 0, first_in_block: bool = True
     ) -> str:
-        if not self.include_descriptions or not definition.description:
+        if not self.include_descriptions or definition.description is None:
             return ""
 
         indent = self.indent * depth
+
+        edges = definition.description.split("\n")
+        if not edges[0].strip() or not edges[-1].strip():
+            # A block string drops leading and trailing blank lines (and an
+            # empty or blank description entirely): use a quoted string.
+            return "%s%s%s\n" % (
+                "\n" if indent and not first_in_block else "",
+                indent,
+                print_ast(_ast.StringValue(value=definition.description)),
+            )
 
         max_len = 120 - len(indent)
         lines = list(wrapped_lines(definition.description.split("\n"), max_len))
@@ -361,7 +371,9 @@ class ASTSchemaPrinter:
             return ""
 
         indent = self.indent * depth
-        if self.include_descriptions and any(a.description for a in args):
+        if self.include_descriptions and any(
+            a.description is not None for a in args
+        ):
             return "%s(\n%s\n%s)" % (
                 indent,
                 "\n".join(
